@@ -117,6 +117,14 @@ claim("C18", "HIR field coverage against the struct definitions (Option fields =
       "built only in from_builder after `!jwk.is_public()` → PrivateKeyMaterialExposed (and in the pass-through map/try_map); key generation returns the public projection.",
       "SHA-256/base64url steps of the thumbprint.", "DESIGN.md §7 C18")
 
+claim("C14", "writer/reader frame-constant agreement (HIR append sequence vs get ranges) + MIR cast/bounds-check inventory + field coverage of the rewrite against the struct definition + decision extraction of the pack/unpack closures",
+      "Decides for all documents/byte strings: the writer appends marker, version, encoding, u16::to_le_bytes(checked u16::try_from(data.len())), data and the reader takes [0..=2], 3, 4, [5..=6] "
+      "(from_le_bytes) and 7..7+len through `get` only (no indexing, no truncating cast); marker/version/encoding/length rejections all precede JSON decoding of exactly the length-delimited slice; "
+      "CoreDocumentData::try_map rewrites every DID-bearing field (computed from the struct definition) with its own closure from the same-named source field and passes the rest through; method and "
+      "service element maps cover id/controller; the pack closure is self → placeholder else unchanged for all four roles, the unpack closures are placeholder → target else unchanged, with the IOTA-DID "
+      "requirement on id and controller only; the rewritten data is re-validated through CoreDocument::try_from.",
+      "JSON round trip of arbitrary documents; documents mentioning the reserved placeholder.", "DESIGN.md §7 C14")
+
 for _p, _r in {
     "C01": "rules not yet implemented in this revision (planned, DESIGN §7)", "C02": "rules not yet implemented in this revision",
     "C03": "rules not yet implemented in this revision", "C04": "rules not yet implemented in this revision",
